@@ -26,6 +26,7 @@ def chain_bodies(fb):
 def run(ck, fb):
     _run0(ck, fb)
     r06f(ck, fb)
+    r06h(ck, fb)
     ck.borrow('rules.c02', {'R02n': 'R06g'}, 'a node that restarts right after a leader change must report the term of its last entry: the vote / append fast path compares it')
 
 
@@ -221,3 +222,84 @@ def r06f(ck, fb):
                        ' (the only test, %s, compares contents)' % [cfg.fmt_atom(a) for a in atoms] if atoms else ''),
                    'guarded by %s' % [cfg.fmt_atom(a) for a in ordering])
     ck.floor('R06f', 'content overwrite sites in set_tmp_config', n, 1)
+
+
+def r06h(ck, fb):
+    """Two clauses of C06 are decided inside the Raft core the repository builds against (crate async_raft_ext as Cargo resolves it for this
+    tree: registry version, path or [patch]); its MIR is extracted with the same driver (bin/extract_dep.sh)."""
+    from rn import facts as F
+    from rn.callgraph import CallGraph
+    ck.rule('R06h', 'a node that joined counts for the commit decision on the leader it joined through: the leader decides "committed" over the '
+                    'replication states in LeaderState.nodes (handle_update_match_index, replicate_client_request: empty nodes = "no voting nodes, '
+                    'committed"). A node added through add_non_voter + change_membership (what RNACOS_RAFT_JOIN_ADDR / join_node do) has its state in '
+                    'LeaderState.non_voters; somewhere outside LeaderState::run (which only runs at election) it must be inserted into nodes. '
+                    'Otherwise the node that formed the cluster commits, and answers success, on its own log alone until another node is elected')
+    ck.rule('R06i', 'last_applied never moves over an entry that was not handed to the state machine: in client_request_post_commit the branch for '
+                    'the leader\'s own first entry (Internal) assigns last_applied = entry.index; entries received as a follower whose commit index '
+                    'had not arrived before the election lie below it. The assignment must be preceded by a call that reaches '
+                    'RaftStorage::replicate_to_state_machine / apply_entry_to_state_machine, otherwise an acknowledged publish is in every log and '
+                    'applied by no survivor')
+    try:
+        fd = F.load_dep(getattr(fb, 'repo', '/repo'), 'async_raft_ext')
+    except Exception as e:
+        ck.bad('R06h', 'anchor:raft-core-facts', '-', 'the Raft core crate (async_raft_ext) could not be extracted: %s' % e)
+        return
+    LS = 'async_raft_ext::core::LeaderState'
+    ins = []
+    counted = []
+    for b in fd.bodies.values():
+        for s0 in b.sites:
+            nm = s0.full or s0.callee or ''
+            if re.search(r'(BTreeMap|HashMap)::<.*>::insert$', nm) and util.recv_fields(b, s0)[-1:] == ['nodes'] and 'ReplicationState' in nm:
+                ins.append((b, s0))
+        if re.search(r'LeaderState<.*>>::(handle_update_match_index|replicate_client_request)', b.name):
+            if any(f == 'nodes' and o == LS for (o, f, _, _) in b.field_reads()):
+                counted.append(b)
+    if not ck.require(len(ins) >= 1 and len(counted) >= 1, 'R06h', 'anchor:LeaderState.nodes', '-',
+                      'LeaderState.nodes is no longer what the commit decision reads (%d inserts, %d readers found): the rule does not know this Raft core' % (len(ins), len(counted))):
+        return
+    for x in counted:
+        ck.analysed(x)
+    late = [(b, s0) for (b, s0) in ins if not re.search(r'LeaderState::<.*>::run(::|$)', b.name)]
+    ck.require(len(late) >= 1, 'R06h', 'raft-core:joined-node-becomes-voter', ins[0][1].where().split('/src/')[-1],
+               'the only insert into LeaderState.nodes is in LeaderState::run (election time): the state of a node added later stays in non_voters and is '
+               'never counted. Real binary, 3 nodes formed with RNACOS_RAFT_JOIN_ADDR: with nodes 2 and 3 killed, a publish on node 1 is answered '
+               'true / 200; after node 1 is killed and 2, 3 restarted the key is 404 on the majority; node 1 later serves it alone',
+               'inserted in %s' % (late[0][0].name.split('>>::')[-1][:60] if late else ''))
+    # R06i
+    cg = CallGraph(fd)
+    n = 0
+    for b in fd.bodies.values():
+        if 'client_request_post_commit' not in b.name:
+            continue
+        for (o, f, bb, st) in b.field_writes():
+            if f != 'last_applied':
+                continue
+            atoms = cfg.guard_atoms(b, bb)
+            if not any(a[0] == 'variant' and a[2] == 'Internal' for a in atoms):
+                continue
+            n += 1
+            ck.analysed(b)
+            ok = False
+            for s0 in b.sites:
+                if s0.bb == bb or not cfg.dominates_blocks(b, [s0.bb], bb):
+                    continue
+                tg = cg.targets(s0)
+                reach = cg.reachable(tg) if tg else set()
+                names = set(reach) | set([s0.full or '', s0.callee or ''])
+                calls_apply = any(re.search(r'replicate_to_state_machine|apply_entry_to_state_machine', x or '') for x in names)
+                if not calls_apply:
+                    for r0 in reach:
+                        rb = fd.bodies.get(r0)
+                        if rb and rb.calls(r'RaftStorage.*::(replicate_to_state_machine|apply_entry_to_state_machine)$'):
+                            calls_apply = True
+                            break
+                # only calls made under the same Internal branch count
+                if calls_apply and any(a[0] == 'variant' and a[2] == 'Internal' for a in cfg.guard_atoms(b, s0.bb)):
+                    ok = True
+            ck.require(ok, 'R06i', 'raft-core:internal-entry-applies-what-it-skips', b.where(bb).split('/src/')[-1],
+                       'the new leader sets last_applied to the index of its own first entry without applying the entries below it. Real binary: publish '
+                       'K1 acknowledged by leader L, kill -9 L within the heartbeat interval: both survivors have K1 in their logs and answer 404, also '
+                       'after later writes; nodes that are restarted replay the log and serve it, the others do not',
+                       'outstanding entries applied first')
+    ck.floor('R06i', 'last_applied assignments on the Internal branch', n, 1)
